@@ -47,3 +47,11 @@ def lemmas(reg, ex):
     return lemma.induction_on_seq(ex, 'C01', 'flat_snoc', {'s': ('seq', 'mv'), 'x': 'mv'},
                                   'flat(s + [x]) == flat(s) + x', on='s',
                                   hints=['(s + [x])[1:] == s[1:] + [x]', '(s + [x])[0] == s[0]'])
+
+
+def replay(ob, reg):
+    from pyvc import replay as R
+    c = reg.contracts.get(ob.func)
+    if c is None or not ob.func.startswith('TcpConnection.'):
+        return {'reproduced': False, 'replay': 'no factory for %s' % ob.func}
+    return R.run_case(R.case_from_obl(ob, c, 'tcpconn'))
